@@ -46,6 +46,7 @@ func main() {
 	// tiny live heap, heavy allocation: with the default GC target the collector runs continuously
 	// and its stop-the-world phases serialise the workers
 	debug.SetGCPercent(2000)
+	debug.SetMemoryLimit(8 << 30)
 	if pf := os.Getenv("VERIF_CPUPROFILE"); pf != "" {
 		f, _ := os.Create(pf)
 		pprof.StartCPUProfile(f)
@@ -211,6 +212,7 @@ func cmdRender(args []string) {
 	children := fs.Int("children", 0, "child processes with another environment / working directory / canary content (0-2)")
 	uninst := fs.Int("uninst", 0, "for every k-th part case also install + uninstall on the simulated cluster (0 = never)")
 	workers := fs.Int("workers", runtime.NumCPU(), "")
+	block := fs.Int("block", 4000, "cases per block (memory)")
 	fs.Parse(args)
 	inAbs, _ := filepath.Abs(*in)
 	outAbs, _ := filepath.Abs(*out)
@@ -225,37 +227,54 @@ func cmdRender(args []string) {
 	os.Setenv("VERIF_CANARY", "ENV-A")
 	must(os.Chdir(hd.cwds[0]))
 
+	modes := []string{"files"}
+	if *disk {
+		modes = []string{"files", "dir", "tgz"}
+	}
+	pl := render.Plan{N: *n, M: *m, Modes: modes, Engine: *eng, InclCRDs: *crds}
+	f, err := os.Create(outAbs)
+	must(err)
+	w := bufio.NewWriterSize(f, 1<<20)
+	enc := json.NewEncoder(w)
+	enc.SetEscapeHTML(false)
+	// blocks: everything of a case is dropped once its observation is written
+	for start := 0; start < len(lines); start += *block {
+		end := start + *block
+		if end > len(lines) {
+			end = len(lines)
+		}
+		for _, ol := range renderBlock(lines[start:end], start, hd, root, pl, *seed, *workers, *children, *uninst, *disk, *eng) {
+			must(enc.Encode(ol))
+		}
+	}
+	w.Flush()
+	f.Close()
+}
+
+func renderBlock(lines []render.CaseLine, offset int, hd hostDirs, root string, pl render.Plan, seed int64, workers, children, uninst int, disk, eng bool) []render.ObsLine {
+	hd.setCanary("CANARY-A")
+	hd.setDefs("absent")
 	refined := make([]render.CaseLine, len(lines))
 	accs := make([]*render.Acc, len(lines))
 	mats := make([]*render.Materialised, len(lines))
 	crdsFirst := make([][]string, len(lines))
 	for i, l := range lines {
 		l.Case = render.NormCase(l.Case)
-		refined[i] = render.Refine(l, *seed)
+		refined[i] = render.Refine(l, seed)
 		accs[i] = render.NewAcc(refined[i])
 	}
-	modes := []string{"files"}
-	if *disk {
-		modes = []string{"files", "dir", "tgz"}
-	}
-	pl := render.Plan{N: *n, M: *m, Modes: modes, Engine: *eng, InclCRDs: *crds}
 	var failMu sync.Mutex
 	var failures []string
 
-	t0 := time.Now()
-	phase := func(name string) {
-		if os.Getenv("VERIF_DEBUG") != "" {
-			fmt.Fprintf(os.Stderr, "phase %s at %.1fs\n", name, time.Since(t0).Seconds())
-		}
-	}
 	// phase 1: this process, canary A
-	parallel(len(refined), *workers, func(i int) {
+	parallel(len(refined), workers, func(i int) {
 		cl := refined[i]
 		tmp := filepath.Join(root, "c", cl.ID)
-		if *disk {
+		if disk {
 			must(os.MkdirAll(tmp, 0o755))
+			defer os.RemoveAll(tmp)
 		}
-		mat, err := render.Materialise(cl.Case, *cl.Fmt, hd.host, tmp, *disk)
+		mat, err := render.Materialise(cl.Case, *cl.Fmt, hd.host, tmp, disk)
 		if err != nil {
 			failMu.Lock()
 			failures = append(failures, cl.ID+": "+err.Error())
@@ -266,8 +285,8 @@ func cmdRender(args []string) {
 		if cl.Case.Fam == "schema" {
 			return // needs the canary to change: done sequentially below
 		}
-		crdsFirst[i] = render.ObserveInProcess(accs[i], mat, pl, *seed)
-		if *uninst > 0 && cl.Case.Fam == "part" && i%*uninst == 0 {
+		crdsFirst[i] = render.ObserveInProcess(accs[i], mat, pl, seed)
+		if uninst > 0 && cl.Case.Fam == "part" && (offset+i)%uninst == 0 {
 			kinds, err := render.ObserveUninstall(mat)
 			if err != nil {
 				failMu.Lock()
@@ -278,13 +297,12 @@ func cmdRender(args []string) {
 			}
 		}
 	})
-	phase("in-process done")
 	if len(failures) > 0 {
 		die("%d cases could not be built, first: %s", len(failures), failures[0])
 	}
 
 	// schema family: the same chart and values while the file outside the chart changes
-	r := rand.New(rand.NewSource(*seed))
+	r := rand.New(rand.NewSource(seed))
 	for i, cl := range refined {
 		if cl.Case.Fam != "schema" {
 			continue
@@ -292,7 +310,7 @@ func cmdRender(args []string) {
 		for _, st := range []string{"absent", "str", "int", "absent", "int", "str"} {
 			hd.setDefs(st)
 			for k := 0; k < 2; k++ {
-				o := mats[i].RenderOnce(modes[k%len(modes)], false, false, r)
+				o := mats[i].RenderOnce("files", false, false, r)
 				accs[i].Add(o, false)
 				if len(accs[i].Schema) < 3 && k == 0 {
 					accs[i].Schema = append(accs[i].Schema, schemaOutcome(o))
@@ -303,7 +321,7 @@ func cmdRender(args []string) {
 	hd.setDefs("absent")
 
 	// phases 2..: child processes with another environment, working directory and canary content
-	if *children > 0 {
+	if children > 0 {
 		rf := filepath.Join(root, "refined.ndjson")
 		var rl []render.CaseLine
 		for _, cl := range refined {
@@ -318,10 +336,10 @@ func cmdRender(args []string) {
 		for i, cl := range refined {
 			idx[cl.ID] = i
 		}
-		for c := 1; c <= *children; c++ {
+		for c := 1; c <= children; c++ {
 			hd.setCanary(fmt.Sprintf("CANARY-%c", 'A'+c))
 			df := filepath.Join(root, fmt.Sprintf("digests%d.ndjson", c))
-			cmd := exec.Command(exe, "child", "-in", rf, "-out", df, "-canary", hd.host.CanaryDir, "-seed", fmt.Sprint(*seed+int64(c)))
+			cmd := exec.Command(exe, "child", "-in", rf, "-out", df, "-canary", hd.host.CanaryDir, "-seed", fmt.Sprint(seed+int64(c)))
 			cmd.Dir = hd.cwds[c%len(hd.cwds)]
 			cmd.Env = []string{"PATH=/nonexistent", "HOME=/nonexistent" + fmt.Sprint(c), "VERIF_CANARY=ENV-" + string(rune('A'+c)),
 				"TMPDIR=" + root, fmt.Sprintf("HELM_NAMESPACE=other%d", c), "HELM_DEBUG=true", "LANG=xx_XX", "TZ=Pacific/Kiritimati"}
@@ -333,22 +351,21 @@ func cmdRender(args []string) {
 				accs[idx[d.ID]].AddDigests(d)
 			}
 			// and once more in this process under the changed canary
-			parallel(len(refined), *workers, func(i int) {
+			parallel(len(refined), workers, func(i int) {
 				if refined[i].Case.Fam == "schema" {
 					return
 				}
-				rr := rand.New(rand.NewSource(*seed + int64(i)))
-				accs[i].Add(mats[i].RenderOnce("files", false, *eng, rr), false)
+				rr := rand.New(rand.NewSource(seed + int64(i)))
+				accs[i].Add(mats[i].RenderOnce("files", false, eng, rr), false)
 			})
 		}
 	}
 
-	phase("children done")
 	res := make([]render.ObsLine, len(refined))
 	for i := range refined {
 		res[i] = accs[i].Result(crdsFirst[i])
 	}
-	writeLines(outAbs, res)
+	return res
 }
 
 func cmdChild(args []string) {
